@@ -53,6 +53,12 @@ fn project_doc(variant: usize) -> Vec<ABlock> {
         gap.push(("GROUP", s("Huecos")));
     }
     d.push(blk("Hueco tipo", "GAP", gap));
+    if full {
+        // frame shares at the ends of the range: below 1 %, none, all
+        for (nm, pc) in [("Hueco marco fino", 0.5f32), ("Hueco sin marco", 0.0), ("Hueco todo marco", 100.0)] {
+            d.push(blk(nm, "GAP", vec![("GROUP-GLASS", s("Vidrios")), ("GLASS-TYPE", s("Vidrio doble")), ("GROUP-FRAME", s("Marcos")), ("NAME-FRAME", s("Marco PVC")), ("PORCENTAGE", n(pc)), ("INF-COEF", n(9.0))]));
+        }
+    }
     // --- schedules
     d.push(blk("Dia A", "DAY-SCHEDULE-PD", vec![("TYPE", w("FRACTION")), ("VALUES", AVal::NumList((0..24).map(|h| h as f32 * 0.25).collect()))]));
     d.push(blk("Dia B", "DAY-SCHEDULE-PD", vec![("TYPE", w("FRACTION")), ("VALUES", AVal::NumList(vec![0.5]))]));
@@ -327,6 +333,14 @@ fn check_typed(ctx: &Ctx, variant: usize, d: &Data, case: &dyn Fn() -> serde_jso
     match d.db.wincons.get("Hueco tipo") {
         Some(c) if c.glass == "Vidrio doble" && c.frame == "Marco PVC" && c.framefrac == 0.25 && c.infcoeff == 9.0 && c.deltau == if full { 12.5 } else { 0.0 } && c.gglshwi == if full { Some(0.5) } else { None } => {}
         other => bad("GAP", format!("{:?}", other)),
+    }
+    if full {
+        for (nm, ff) in [("Hueco marco fino", 0.005f32), ("Hueco sin marco", 0.0), ("Hueco todo marco", 1.0)] {
+            match d.db.wincons.get(nm) {
+                Some(c) if (c.framefrac - ff).abs() < 1e-7 => {}
+                other => bad("GAP:frame-share-at-the-end-of-the-range", format!("{}: {:?}, written share {} %", nm, other.map(|c| c.framefrac), ff * 100.0)),
+            }
+        }
     }
     // spaces / floors
     match d.spaces.first() {
